@@ -31,7 +31,9 @@ func genC12(t *rapid.T) TCase {
 			c.Ops = append(c.Ops, TOp{K: "cancel", F: rapid.IntRange(0, 63).Draw(t, "f"), N: rapid.SampledFrom([]int{1, 1, 1, 2, 3}).Draw(t, "times"),
 				G: rapid.SampledFrom([]int{0, 0, 1}).Draw(t, "g"), Head: rapid.IntRange(0, 4).Draw(t, "head") == 0})
 		case 8:
-			if rapid.Bool().Draw(t, "farInsteadOfSleep") {
+			if rapid.IntRange(0, 2).Draw(t, "formatInstead") == 0 {
+				c.Ops = append(c.Ops, TOp{K: "format", F: rapid.IntRange(0, 63).Draw(t, "f")})
+			} else if rapid.Bool().Draw(t, "farInsteadOfSleep") {
 				c.Ops = append(c.Ops, TOp{K: "far", D: rapid.IntRange(60, 3600).Draw(t, "far"), N: rapid.IntRange(0, 3).Draw(t, "farKind")})
 				made++
 			} else {
@@ -74,7 +76,11 @@ func genC13(t *rapid.T) TCase {
 				c.Ops = append(c.Ops, TOp{K: "gap"})
 			}
 		case 9:
-			c.Ops = append(c.Ops, TOp{K: "sleep", D: rapid.SampledFrom([]int{1, 3, 10, 40}).Draw(t, "ms")})
+			if rapid.Bool().Draw(t, "formatInstead") {
+				c.Ops = append(c.Ops, TOp{K: "format", F: rapid.IntRange(0, 63).Draw(t, "f")})
+			} else {
+				c.Ops = append(c.Ops, TOp{K: "sleep", D: rapid.SampledFrom([]int{1, 3, 10, 40}).Draw(t, "ms")})
+			}
 		}
 	}
 	return c
@@ -157,7 +163,7 @@ func TestC13Patterns(t *testing.T) {
 		"far":        {{K: "far", D: 120}},
 		"near":       {{K: "call", D: 10}},
 		"burst":      {{K: "burst", N: 25, D: 2}},
-		"cancelhead": {{K: "call", D: 40}, {K: "cancel", Head: true, N: 1}},
+		"cancelhead": {{K: "call", D: 40}, {K: "cancel", Head: true, N: 1}, {K: "format", F: 0}, {K: "format", F: 1}},
 		"gap":        {{K: "gap"}},
 		"concurrent": {{K: "call", D: 5, G: 1}, {K: "call", D: 3, G: 2}, {K: "burst", N: 12, D: 1, G: 3}},
 	}
